@@ -1,3 +1,16 @@
 import Gossamer.Props.C12
-open Gossamer.C12
-#print axioms C12_spec_sound
+open Gossamer.C12 Gossamer.Scale
+#print axioms C12_decodeA_res
+#print axioms C12_refines
+#print axioms C12_decode_sound_partial
+#print axioms C12_unmarshal_sound_partial
+#print axioms C12_truncated_partial
+#print axioms C12_noncanonical_rejected
+#print axioms C12_zero_fill_is_malformed
+#print axioms C12_decode_sound_counterexample
+#print axioms C12_alloc_bounded_partial
+#print axioms C12_alloc_bounded_counterexample
+#print axioms C12_no_panic
+#print axioms Gossamer.Scale.Spec.sound
+#print axioms Gossamer.Scale.Spec.truncated
+#print axioms Gossamer.Scale.compactDec_sound
